@@ -46,8 +46,8 @@ Definition cmod (xr xi : list Q) : list Q := map (nroot 2) (c_abs2 xr xi).
 (* the weighting / boundary data of a leaf *)
 Definition leaf_parts (q : quirks) (lf : @leaf Q) : @tweight Q * expo * option (list (@axis Q)) :=
   match lf with
-  | LTensor _ _ w p => (t_weight w, p, None)
-  | LDiscr _ axes w p =>
+  | LTensor w p => (t_weight w, p, None)
+  | LDiscr axes w p =>
       let tw := d_weight axes w p in
       (tw, p, if unif_weighted q axes tw p then None else Some axes)
   end.
@@ -62,23 +62,28 @@ Definition check_c (k : c_case) : bool :=
       else match c_out k with INotImpl => true | _ => false end
   | ONorm =>
       let m := cmod (sc (frac_root p) (c_xr k)) (sc (frac_root p) (c_xi k)) in
-      agree (t_norm (c_q k) true tw p m) (c_out k)
+      agree (t_norm tw p m) (c_out k)
   | ODist =>
       let dr := vsub (sc (frac_root p) (c_xr k)) (sc (frac_root p) (c_yr k)) in
       let di := vsub (sc (frac_root p) (c_xi k)) (sc (frac_root p) (c_yi k)) in
-      agree (t_norm (c_q k) true tw p (cmod dr di)) (c_out k)
+      agree (t_norm tw p (cmod dr di)) (c_out k)
   end.
 
 (* ---- complex spaces of any nesting: inner product on (re, im) element trees ---- *)
 Record ct_case := { t_q : quirks; t_s : @space Q; t_xr : @elem Q; t_xi : @elem Q; t_yr : @elem Q; t_yi : @elem Q;
-                    t_out : impl_out; t_out_im : Q }.
+                    t_op : opk; t_out : impl_out; t_out_im : Q }.
 Definition check_ct (k : ct_case) : bool :=
-  match csp_inner (t_q k) (t_s k) (t_xr k) (t_xi k) (t_yr k) (t_yi k), t_out k with
-  | Ok (re, im), IVal v => Qclose atol rtol v re && Qclose atol rtol (t_out_im k) im
-  | NotImpl, INotImpl => true
-  | ValueErr, IValueErr => true
-  | IndexErr, IIndexErr => true
-  | _, _ => false
+  match t_op k with
+  | OInner =>
+      match csp_inner (t_q k) (t_s k) (t_xr k) (t_xi k) (t_yr k) (t_yi k), t_out k with
+      | Ok (re, im), IVal v => Qclose atol rtol v re && Qclose atol rtol (t_out_im k) im
+      | NotImpl, INotImpl => true
+      | ValueErr, IValueErr => true
+      | IndexErr, IIndexErr => true
+      | _, _ => false
+      end
+  | ONorm => agree (csp_norm (t_q k) (t_s k) (t_xr k) (t_xi k)) (t_out k)
+  | ODist => agree (csp_dist (t_q k) (t_s k) (t_xr k) (t_xi k) (t_yr k) (t_yi k)) (t_out k)
   end.
 
 (* ---- partitions: grid ends, stride/cell side, boundary fractions, cell volume ---- *)
